@@ -58,7 +58,22 @@ def run(ctx):
                 (isinstance(d, dict) and d.get('k') == 'cond' and ('nterrupted' in dstr(d['c'])) and
                  mentions_enum(d['t'], 'SubprocessSet::WorkResult::Interrupted'))
             ctx.check('C07.O1', ok, dw.name, 'DoWork:Interrupted-guard', dw.where(e), 'DoWork reports Interrupted when the flag is set')
-    ctx.floor('C07.O1', 10)
+    # the runner hands every finished command to the builder *with its edge*: once the edge has been erased from
+    # subproc_to_edge_ (Cleanup() cannot find it any more), the only way out is a CommandCompleted result naming it -
+    # a command killed by the interrupt included (Builder::Build cleans up that edge itself)
+    er = [e for e in wc.events('call') if lastname(e.get('name') or '').split('<')[0] == 'erase' and mentions_field(e.get('recv'), 'RealCommandRunner::subproc_to_edge_')]
+    ctx.check('C07.O1', len(er) >= 1, wc.name, 'runner:erase-sites', wc.loc, 'the finished subprocess is taken out of subproc_to_edge_')
+    for e in er:
+        def names_edge(x):
+            if x.get('k') not in ('asg', 'decl', 'call', 'ret'):
+                return False
+            txt = dstr({k: v for k, v in x.items() if not k.startswith('_')})
+            return 'BuildResult::CommandCompleted' in txt and 'edge' in txt
+        r = wc.find_path(e, lambda x: x['k'] in ('ret', 'exit'), is_blocker=names_edge)
+        ctx.check('C07.O1', r is None, wc.name, 'runner:completed-edge-dropped', wc.where(e),
+                  'after erasing the edge from subproc_to_edge_ the runner returns a CommandCompleted that names it',
+                  witness=None if r is None else {'blocks': r[0]})
+    ctx.floor('C07.O1', 12)
 
     # ---- O2: cleanup rule ---------------------------------------------------------------------------------
     R('C07.O2', 'O', 'Cleanup stops the running commands first, then for every active edge — and for a '
